@@ -196,7 +196,11 @@ class Ctx:
         self.solver.push()
         for e in extra:
             self.solver.add(e)
-        r = self.solver.check()
+        _arm_watchdog(self.solver.ctx, self.timeout_ms / 1000.0 + 5.0)
+        try:
+            r = self.solver.check()
+        finally:
+            _WD["deadline"] = None
         self.stats.queries += 1
         model = None
         if r == z3.sat:
@@ -449,6 +453,32 @@ def _cross_check(solver, verdict):
             os.unlink(path)
         except OSError:
             pass
+
+
+# -- watchdog: z3's own timeout is not always honoured inside nonlinear arithmetic; a per-process thread interrupts the
+#    context when a query overruns its budget by 5 s (the query then answers unknown = inconclusive)
+_WD = dict(deadline=None, ctx=None, pid=None)
+
+
+def _watchdog_loop():
+    while True:
+        time.sleep(1.0)
+        dl = _WD["deadline"]
+        if dl is not None and time.time() > dl:
+            _WD["deadline"] = None
+            try:
+                _WD["ctx"].interrupt()
+            except Exception:
+                pass
+
+
+def _arm_watchdog(ctx, seconds):
+    if _WD["pid"] != os.getpid():
+        import threading
+        _WD["pid"] = os.getpid()
+        threading.Thread(target=_watchdog_loop, daemon=True).start()
+    _WD["ctx"] = ctx
+    _WD["deadline"] = time.time() + seconds
 
 
 CTX: Ctx | None = None
